@@ -12,6 +12,7 @@ set -u
 ID="$1"; TIER="${2:-${VERIF_TIER:-quick}}"
 cd "$(dirname "$0")/.." || exit 2
 VERIF="$(pwd)"
+REPO="${REPO_DIR:-/repo}"   # the tree under check (seed_check.sh points this at a scratch worktree)
 export GOFLAGS=-mod=mod GOPROXY=off GOTOOLCHAIN=auto
 unset GOSUMDB
 SCRATCH="$(mktemp -d "${TMPDIR:-/tmp}/verif-$ID-XXXXXX")" || exit 2
@@ -19,7 +20,7 @@ trap 'rm -rf "$SCRATCH"' EXIT
 BIN="$SCRATCH/vsim"; RACEBIN=""
 MODE=instrumented
 if go build -o "$SCRATCH/instr" ./instr >"$SCRATCH/instr-build.log" 2>&1 \
-   && "$SCRATCH/instr" -src /repo -dst "$SCRATCH/repo" -simrt "$VERIF/simrt" >"$SCRATCH/instr.log" 2>&1; then
+   && "$SCRATCH/instr" -src "$REPO" -dst "$SCRATCH/repo" -simrt "$VERIF/simrt" >"$SCRATCH/instr.log" 2>&1; then
   sed -e "s#=> /repo#=> $SCRATCH/repo#" -e "s#=> ./simrt#=> $VERIF/simrt#" go.mod > "$SCRATCH/harness.mod"
   cp go.sum "$SCRATCH/harness.sum"
   if ! go build -modfile="$SCRATCH/harness.mod" -tags verif -o "$BIN" ./cmd/vsim >"$SCRATCH/build.log" 2>&1; then
@@ -35,12 +36,14 @@ else
   echo "NOTE: instrumentation not possible, falling back to the plain build (real goroutines):"; tail -3 "$SCRATCH/instr.log" "$SCRATCH/instr-build.log" 2>/dev/null | head -8; MODE=plain
 fi
 if [ "$MODE" = plain ]; then
-  if ! go build -tags verif -o "$BIN" ./cmd/vsim >"$SCRATCH/build.log" 2>&1; then
+  sed -e "s#=> /repo#=> $REPO#" -e "s#=> ./simrt#=> $VERIF/simrt#" go.mod > "$SCRATCH/plain.mod"
+  cp go.sum "$SCRATCH/plain.sum"
+  if ! go build -modfile="$SCRATCH/plain.mod" -tags verif -o "$BIN" ./cmd/vsim >"$SCRATCH/build.log" 2>&1; then
     echo "BUILD-FAILED (harness against /repo working tree with -tags verif):"; head -40 "$SCRATCH/build.log"
     exit 2
   fi
 fi
 grep -h "^instr: rewrites" "$SCRATCH/instr.log" 2>/dev/null
 export TMPDIR="$SCRATCH"
-"$BIN" check -prop "$ID" -tier "$TIER" -verif "$VERIF" -mode "$MODE" ${RACEBIN:+-racebin "$RACEBIN"} ${VSIM_ARGS:-}
+"$BIN" check -prop "$ID" -tier "$TIER" -verif "${VERIF_OUT:-$VERIF}" -mode "$MODE" ${RACEBIN:+-racebin "$RACEBIN"} ${VSIM_ARGS:-}
 exit $?
